@@ -61,7 +61,7 @@ func checkSeq(s seqCase, pinFirst bool) (string, caseStat) {
 	var st caseStat
 	led := &ledger{keep: s.Keep}
 	seen := map[string]bool{}
-	reached, packed := 0, false
+	reached, packed, large := 0, false, 0
 	for i, step := range s.Steps {
 		for g := 0; g < step.GC; g++ {
 			runtime.GC()
@@ -81,6 +81,10 @@ func checkSeq(s seqCase, pinFirst bool) (string, caseStat) {
 		for _, c := range cst.classes {
 			if c == "layout.packed" {
 				packed = true
+			}
+			if c == "size.large.reached.with-spare" {
+				large++
+				st.classes = append(st.classes, "step.large.reached.with-spare")
 			}
 			if strings.HasPrefix(c, "op.") && !seen[c] {
 				seen[c] = true
@@ -103,6 +107,12 @@ func checkSeq(s seqCase, pinFirst bool) (string, caseStat) {
 	if packed {
 		st.classes = append(st.classes, "seq.with-packed-layout")
 	}
+	switch {
+	case large >= 2:
+		st.classes = append(st.classes, "seq.large-calls.2+")
+	case large == 1:
+		st.classes = append(st.classes, "seq.large-calls.1")
+	}
 	if len(s.Steps) >= 8 {
 		st.classes = append(st.classes, "seq.len.8+")
 	} else {
@@ -115,7 +125,7 @@ func checkSeq(s seqCase, pinFirst bool) (string, caseStat) {
 func template(o op, alg, mode string, i int) memCase {
 	c := memCase{Op: o.Name, Alg: alg, Mode: mode, Len: []int{32, 48, 16, 33}[i%4], AadLen: []int{0, 13}[i%2], Spare: [][]int{{40}, {16, 0, 64, 24, 1}, {64}}[i%3], Seed: uint64(i+1) * 0x9e3779b97f4a7c15}
 	if o.DstOp {
-		c.Dst, c.DstLen = []string{"nil", "sep", "inplace"}[i%3], 5
+		c.Dst, c.DstLen = dstForms[i%len(dstForms)], 5
 	}
 	return c
 }
@@ -124,7 +134,10 @@ func template(o op, alg, mode string, i int) memCase {
 // algorithm on its successful path (the calls that do the most work), one after the other, in the same process;
 // the memory handed to A - and to the last calls before the current one - is compared after every single call.
 // Starts: after two collections (library pools as empty as at process start), with a collection between A and
-// the calls that follow, and (thorough tier) straight away.
+// the calls that follow, and (thorough tier) straight away. Large size classes (a library may keep buffers for long
+// messages only): the same with A's message at a length from the menu of size_test.go - just below, just above and one block
+// above a switch point 1 KiB .. 128 KiB, rotating - followed by calls of which every third has a large message too,
+// straight away and (thorough tier) with the collections of the other starts.
 func TestSeqSweep(t *testing.T) {
 	defer oneP()()
 	sec := vk.Sec("SeqSweep")
@@ -141,14 +154,22 @@ func TestSeqSweep(t *testing.T) {
 			}
 		}
 	}
+	seqLens := sizeMenu(sizeThresholds, []int{-1, 1, 16})
 	idx := 0
 	for ai, A := range all {
-		for variant := vk.Pick(1, 0); variant < 3; variant++ {
+		for variant := vk.Pick(1, 0); variant < vk.Pick(4, 6); variant++ {
+			large := variant >= 3
+			if large && !A.o.sized(A.c.Alg, A.c.Mode) {
+				continue
+			}
 			idx++
 			if !vk.Mine(idx) {
 				continue
 			}
-			s := seqCase{Keep: 12, Steps: []seqStep{{GC: []int{0, 2, 1}[variant], C: A.c}}}
+			s := seqCase{Keep: 12, Steps: []seqStep{{GC: []int{0, 2, 1}[variant%3], C: A.c}}}
+			if large {
+				s.Steps[0].C.Len = seqLens[ai%len(seqLens)]
+			}
 			for bi, B := range all {
 				if !B.okay && !(vk.Thorough() && (ai+bi)%4 == 0) {
 					continue
@@ -163,8 +184,11 @@ func TestSeqSweep(t *testing.T) {
 				}
 				c := B.c
 				c.Seed ^= uint64(idx) << 20
+				if large && (ai+bi)%3 == 0 && B.o.sized(c.Alg, c.Mode) {
+					c.Len = seqLens[(ai+bi)/3%len(seqLens)]
+				}
 				gc := 0
-				if variant == 2 && len(s.Steps) == 1 {
+				if variant%3 == 2 && len(s.Steps) == 1 {
 					gc = 1
 				}
 				s.Steps = append(s.Steps, seqStep{GC: gc, C: c})
@@ -173,9 +197,12 @@ func TestSeqSweep(t *testing.T) {
 			if msg != "" {
 				t.Fatalf("C17 caller memory violated: %s\ncase: %s", msg, s)
 			}
+			if large {
+				st.classes = append(st.classes, "seq.first-call-large")
+			}
 			sec.Case(st.nontrivial, s.fp(), st.classes...)
 			sec.Sample(func() any {
-				return fmt.Sprintf("seq{gc=%d %s; then %d calls (every function x algorithm, path ok); keep=12 + first}", s.Steps[0].GC, A.c, len(s.Steps)-1)
+				return fmt.Sprintf("seq{gc=%d %s; then %d calls (every function x algorithm, path ok; large messages among them: %v); keep=12 + first}", s.Steps[0].GC, s.Steps[0].C, len(s.Steps)-1, large)
 			})
 		}
 	}
@@ -215,6 +242,8 @@ func TestSeqRapid(t *testing.T) {
 			fam = append(fam, member{o: o, algs: rapid.Permutation(o.Algs).Draw(rt, "algs")[:na]})
 		}
 		n := rapid.IntRange(2, 12).Draw(rt, "steps")
+		// the sizes of one sequence: mostly short messages, or mostly long ones (buffers kept for long messages meet long messages)
+		big := rapid.SampledFrom([]int{1, 1, 1, 6}).Draw(rt, "largeWeight")
 		s := seqCase{Keep: rapid.IntRange(1, 12).Draw(rt, "keep")}
 		heavy := 0
 		for i := 0; i < n; i++ {
@@ -235,7 +264,7 @@ func TestSeqRapid(t *testing.T) {
 			oo := o
 			oo.Algs = algs
 			gc := rapid.SampledFrom([]int{0, 0, 0, 0, 0, 1, 1, 2}).Draw(rt, "gc")
-			s.Steps = append(s.Steps, seqStep{GC: gc, C: drawCase(rt, oo)})
+			s.Steps = append(s.Steps, seqStep{GC: gc, C: drawCase(rt, oo, big)})
 		}
 		msg, st := checkSeq(s, false)
 		if msg != "" {
